@@ -508,6 +508,33 @@ def run(scn, clauses=None):
             if any(ch not in b'QZ\n' for ch in seen_b):
                 v.append(Violation('C01.conservation', 'text of the stream under test turned up in a second, unrelated object', None,
                                    {'twin_saw': seen_b[:60], 'call': {'api': 'twin', 'op': None}}))
+        if not v and (clauses is None or 'C04' in clauses) and scn.get('transport') == 'pty':
+            # eof(): true from the first EOF outcome on, never while the child still holds its terminal open
+            eof_ops = set()
+            for c_ in r.calls:
+                kd_, vl_ = c_['outcome']
+                if (kd_ == 'exc' and isinstance(vl_, EOF)) or (kd_ == 'ret' and isinstance(vl_, int) and 0 <= vl_ < len(c_['plist'])
+                                                             and c_['plist'][vl_] is EOF):
+                    eof_ops.add(c_['op'])
+            first_eof = min([k_ for k_ in eof_ops if isinstance(k_, int)] + [o['k'] for o in r.ops if o['out'] == 'EOF'] + [10 ** 9])
+            for o in r.ops:
+                if 'eof_flag' not in o:
+                    continue
+                fl_ = o['eof_flag']
+                if isinstance(fl_, Exception):
+                    v.append(Violation('C04.eof_flag', 'eof() raised %s: %s' % (type(fl_).__name__, fl_), None,
+                                       {'call': {'api': 'eof()', 'op': o['k']}}))
+                    break
+                if o['k'] >= first_eof and not fl_:
+                    v.append(Violation('C04.eof_flag', 'eof() is false after operation %d although EOF was reported by operation %d'
+                                       % (o['k'], first_eof), None, {'call': {'api': 'eof()', 'op': o['k']}}))
+                    break
+                if fl_ and o.get('hung_up') is False and o['k'] < first_eof:
+                    v.append(Violation('C04.eof_flag', 'eof() is true after operation %d although the stream has not ended (the child holds its terminal open, or '
+                                       'output is still unread) and no call has reported EOF' % o['k'], None, {'call': {'api': 'eof()', 'op': o['k']}}))
+                    break
+                if fl_:
+                    r.w.probe('eof_method_true')
         if child.encoding is not None and (clauses is None or 'C01' in clauses or 'C07' in clauses):
             # the text delivered to matching must be the decoding of the bytes taken from the kernel -- whatever was
             # assigned to the buffer or sent in between (the read decoder's state belongs to the stream alone)
